@@ -109,8 +109,17 @@ def in_set(p, x, y): return p in {Point(x, y), Point(0, 0)}
 def build(x, y): return [Point(x, y).x, Point3(x, y, 1).z, isinstance(Point3(x, y, 2), Point)]
 
 
+class Feed(object):
+    """a class that keeps a process-local resource as a class attribute (a generator here; sockets, locks, open files are
+    the usual ones): the class cannot be encoded by value, its instances and methods travel by reference"""
+    stream = (i for i in range(3))
+    def __init__(self, k): self.k = k
+    def __call__(self, x): return self.k * x
+    def plus(self, x): return self.k + x
+
+
 def gen_case(rng):
-    k = rng.randrange(18)
+    k = rng.randrange(21)
     n, m = rng.randint(0, 9), rng.randint(-5, 5)
     if k == 0:  return 'add',       add, (n, m), {}
     if k == 1:  return 'add_kw',    add, (n,), {'b': m}
@@ -129,6 +138,8 @@ def gen_case(rng):
     if k == 14: return 'hash_set',  in_set, (Point(n, m), n, rng.choice([m, m + 1])), {}
     if k == 16: return 'decorated', tripled_plus_one, (n,), {}
     if k == 17: return 'decorated_clamp', minus_four, (n,), {}
+    if k == 18: return 'resource_class_instance', Feed(m), (n,), {}
+    if k in (19, 20): return 'resource_class_method', Feed(m).plus, (n,), {}
     return 'construct', build, (n, m), {}
 
 
